@@ -20,6 +20,13 @@ RULE = ('abandonment sweep: for each base scenario (the 16 of C09: plain / '
         'poll object survives, no descriptor is still registered.  '
         'Non-trivial = abandoned after a socket existed; distinct = distinct '
         '(base, event index, mechanism)')
+RULE += (' '
+         'Further families: `rebind` (connect() called again before the '
+         'abandoned generator is released, every event index), '
+         '`sweep_long_url` (the same sweep with a 120-240 byte query '
+         'string), `early_faults` (10 things that go wrong before the '
+         'connection is up x every event index x 4 mechanisms), ThreadSim '
+         'families (abandon while another thread is inside write()).')
 SHRINK_LISTS = [('faults',)]
 EXPECTED_PROBES = ['abandon_at_connected', 'abandon_at_poll',
                    'abandon_at_message', 'abandon_at_closing',
